@@ -13,7 +13,9 @@
                      each also-completes discriminant, before it sends the message  (workload.rs:711-722)
     * `deliver id` – the main thread handles the message: `handle_success`           (workload.rs:372-474):
                      `complete_one`, `mark_also_completed`, then the source-dependent *script*
-                     of effects for that id (jobs to add, read-access rewrites, BE-glyph skips).
+                     of effects for that id (jobs to add, read-access rewrites, BE-glyph skips, and — only in a
+                     scheduler that branches on the state of another job, like the repaired `update_be_glyph_work` —
+                     `guard` assertions recording which branch was taken).
 
   `step … = none` means: the scheduler would not do this (guard false) or the real code panics /
   corrupts its bookkeeping at this point ("completed but isn't pending", "Multiple completions",
